@@ -30,6 +30,7 @@ three resource dimensions per type.  A resource list is 3 tokens, `_` = key abse
      (sevOps / revOps decide which ledger ops happen)
   READ-ONLY steps (the model threads the ledger through them; `readonly_steps_preserve_state`):
   robegin                                            a new scheduling cycle (fresh preFilterState)
+  roany                                              a read-only step whose result is not modelled (Filter with a restore state)
   rorm <pod> <hasRsv> <rsv>    roadd <pod> <hasRsv> <rsv>      Plugin.RemovePod / AddPod (rsv: what the reservation cache names)
   rorst <nm> (<rsv> <k> owner*k)*nm <nu> (<rsv> <k> owner*k)*nu     PreRestoreReservation + RestoreReservation
   rofil <hasminors> <nm> m* <desired> q q q          Plugin.Filter of the preemptor (no restore state): verdict
@@ -150,8 +151,8 @@ def applyOps (d : DState) (t : Nat) (ops : List Op) : DState :=
   if t ≥ ntypes then d else
   ops.foldl (fun d op =>
     let s := nodeGet d.node t
-    { d with node := nodeSet d.node t (step s op), wf := d.wf && opWFB op, exact := d.exact && opExact s op,
-      sched := d.sched && schedOK s op }) d
+    { node := nodeSet d.node t (step s op), wf := d.wf && opWFB op, exact := d.exact && opExact s op,
+      sched := d.sched && schedOK s op, cyc := d.cyc }) d
 
 def applyAllocs (d : DState) (p : Nat) (add : Bool) (groups : List (Nat × List (Nat × RL))) : DState :=
   groups.foldl (fun d g => applyOps d g.1 [if add then Op.add p g.2 else Op.remove p g.2]) d
@@ -382,6 +383,11 @@ def runLine (d : DState) (line : String) : DState × List String :=
     else if kind = "robegin" then
       if rest.isEmpty then
         let d' := { d with cyc := Cycle.empty }
+        (d', dump d'.node ++ [flagLine d'])
+      else (d, ["bad-op"])
+    else if kind = "roany" then
+      if rest.isEmpty then
+        let d' := applyRo d .opaque
         (d', dump d'.node ++ [flagLine d'])
       else (d, ["bad-op"])
     else if kind = "rorm" || kind = "roadd" then
